@@ -133,6 +133,32 @@ class Gen:
         self.e("set", r3, 0)
         self.e("g2", g, r1, r3)
 
+    def epr_move(self):
+        """what the SDK emits to move a fresh EPR half from the electron onto a carbon: `mov <src> <dst>`
+        whose operands are NOT Q registers (R / C bank registers holding the qubit ids), with the same
+        register INDICES as Q registers that were `set` earlier in the subroutine.  The carbon is freshly
+        initialised before, the electron is re-initialised afterwards (as the next EPR generation does),
+        so the move is a state transfer whatever state the source is left in."""
+        rng = self.rng
+        c = rng.randint(1, self.nc)
+        self.e("set", self.qa, c)
+        self.e("q", "init", self.qa)
+        bank = rng.choice(["R", "R", "C"])
+        i, j = rng.sample([0, 1] if bank == "R" else [0, 2, 3], 2)
+        if rng.random() < 0.25:
+            src, dst = rng.sample(self.qregs, 2) if len(self.qregs) > 1 else (self.qa, self.qb)
+        else:
+            src, dst = (bank, i), (bank, j)
+        if rng.random() < 0.5:
+            self.e("set", src, 0)
+            self.e("set", dst, c)
+        else:
+            self.e("set", dst, c)
+            self.e("set", src, 0)
+        self.e("g2", "mov", src, dst)
+        self.e("set", self.qa, 0)
+        self.e("q", "init", self.qa)
+
     def gate_load(self):
         """Q register written by load (qubit id table in array @1)"""
         rng = self.rng
@@ -263,6 +289,8 @@ class Gen:
             w += [("luse", 5)]
         if len(self.qregs) > 2:
             w += [("ce_pair", 2)]
+        if self.o.get("nonq"):
+            w += [("epr_move", 4)]
         tot = sum(x[1] for x in w)
         r = rng.uniform(0, tot)
         for name, wt in w:
@@ -307,7 +335,7 @@ def gen_program(rng, opts=None, size=None):
         g.e("ret_arr", 0)
         g.e("ret_reg", ("M", 0))
     prog = g.resolve()
-    return prog, dict(ncarbons=nc, script_len=g.script_len, pool=[g.qa, g.qb], lreg=g.ql, perm=opts.get("perm"))
+    return prog, dict(ncarbons=nc, script_len=g.script_len, pool=[g.qa, g.qb], lreg=g.ql, perm=opts.get("perm"), nonq=opts.get("nonq"))
 
 
 def mentioned_regs(prog):
